@@ -897,6 +897,13 @@ def _family_job(a):
 def part_full_family(ctx, nontrivial):
     specs = [(n, r) for n in range(2, N_MAX + 1) for r in range(1, R_MAX + 1)
              if (n, r) != (2, 1)]
+    # storage edges: numbers of days around 128 and 256, numbers of teams
+    # around 64 and 128 (anything that keeps day or team indices in a
+    # narrow integer or in a machine word breaks here first)
+    specs += [(4, 42), (4, 43), (4, 85), (4, 86), (6, 26), (6, 51), (6, 52),
+              (8, 37), (3, 64), (3, 65), (3, 128), (3, 129), (20, 14),
+              (63, 1), (64, 1), (65, 1), (66, 1), (64, 2), (127, 1),
+              (128, 1), (129, 1), (130, 1)]
     out = pmap(_family_job, specs, ctx.jobs)
     cnt = sum(o[0] for o in out)
     fed = sum(o[1] for o in out)
